@@ -43,9 +43,7 @@ def xor_(x):
 
 
 def new_cc(CC):
-    cc = CC.__new__(CC)
-    cc.dataset_info = {'general': {}, 'combinations': [], 'correlations': [], 'duplicates': [], 'labels': {}, 'noise': []}
-    return cc
+    return CC(seed=5)
 
 
 def as_list(sel):
@@ -168,7 +166,7 @@ def check_pearson(cc, cols, r):
     return probs
 
 
-def check_noise(cc, X, y, p, typ):
+def check_noise(cc, X, y, p, typ, rng=None):
     Xb = X.copy()
     n = X.shape[0]
     k = int(n * p)
@@ -187,9 +185,19 @@ def check_noise(cc, X, y, p, typ):
                 if not set(R[:, j].tolist()) <= set(Xb[:, j].tolist()):
                     probs.append(f'feature {j}: new values {sorted(set(R[:, j].tolist()) - set(Xb[:, j].tolist()))} are not values of that feature')
     else:
+        state0 = rng.state if rng is not None else None
         R = cc.generate_noise(X, y, p=p, type='missing', missing_val=-1)
         if (X != Xb).any():
             probs.append('input data set was modified')
+        Xf = Xb.astype(float)          # data sets that went through generate_correlated / nonlinear combinations are float64
+        Xf0 = Xf.copy()
+        if rng is not None:
+            rng.state = state0          # same generator state: the float64 run sees the same draws (no new solver decisions)
+        Rf = cc.generate_noise(Xf, y, p=p, type='missing', missing_val=-1)
+        if (Xf != Xf0).any():
+            probs.append('input data set (float64) was modified by missing-type noise')
+        if any(int((Rf[:, j] == -1).sum()) != k for j in range(Xf.shape[1])):
+            probs.append(f'float64 input: not exactly floor(p*n) = {k} markers per feature')
         for j in range(X.shape[1]):
             m = int((R[:, j] == -1).sum())
             if m != k or ((R[:, j] != -1) & (R[:, j] != Xb[:, j])).any():
@@ -302,7 +310,7 @@ def run_job(job):
             X = X0[:5, [1, 2][:ncols]].copy()
             w.update({'y': y.tolist(), 'p': p, 'ncols': ncols})
             try:
-                probs = check_noise(cc, X, y, p, 'categorical' if cond == 'noise-categorical' else 'missing')
+                probs = check_noise(cc, X, y, p, 'categorical' if cond == 'noise-categorical' else 'missing', rng=G.RNGI)
             except Exception as e:
                 probs = [f'{type(e).__name__}: {e}']
             w['draws'] = [v for _, v in G.RNGI.log]
